@@ -13,25 +13,37 @@ F_CX = 'atsim/potentials/config/_cexprtk_potential_function.py'
 F_REG = 'atsim/potentials/config/_potential_form_registry.py'
 F_MREG = 'atsim/potentials/config/_modifier_registry.py'
 F_PM = 'atsim/potentials/config/_pymath.py'
-FUNCTIONS = []
+import contracts.modifiers as MD
+from pyvc.spec import SpecAcc
+from pyvc.symexec import reduce_fn
+FUNCTIONS = [(F_MOD, '_modifier_from_func_reduce'), (F_MOD, 'sum'), (F_MOD, 'product'), (F_MOD, 'pow'), (F_MOD, 'trans')]
+SPECSEQS = [MD.dens]
+FnL = z3.SeqSort(Fn)
+# pointwise sum / product of the first t+1 callables at r
+sum_at = SpecAcc('pointwise_sum', [FnL, RealS], lambda fs, r: app(fs[0], r), lambda fs, r, t, prev: prev + app(fs[t + 1], r), result=RealS)
+prod_at = SpecAcc('pointwise_product', [FnL, RealS], lambda fs, r: app(fs[0], r), lambda fs, r, t, prev: prev * app(fs[t + 1], r), result=RealS)
 
 def lemmas():
     out = []
     S = B.source_shape
     # the modifiers ARE the Python-API combinators folded over their arguments (so potable == Python API by construction)
-    out.append(S('C09', F_MOD, '_modifier_from_func_reduce', 'left-fold-of-the-combinator-over-the-arguments-in-order',
-                 ['for i, pfi in enumerate(potential_forms):', 'pot_callable = potential_form_builder.create_potential_function(pfi)', 'pot_callables.append(pot_callable)', 'mod = functools.reduce(func, pot_callables)', 'return mod']))
-    out.append(S('C09', F_MOD, 'sum', 'is-plus', ["mod = _modifier_from_func_reduce('sum', plus, potential_forms, potential_form_builder)"]))
-    out.append(S('C09', F_MOD, 'product', 'is-product', ['from atsim.potentials import product', "mod = _modifier_from_func_reduce('product', product, potential_forms, potential_form_builder)"]))
-    out.append(S('C09', F_MOD, 'pow', 'is-pow', ['from atsim.potentials import pow', "mod = _modifier_from_func_reduce('pow', pow, potential_forms, potential_form_builder)"]))
+    # the modifiers ARE the Python-API combinators folded over their arguments: Engine A contracts of _modifier_from_func_reduce, sum, product, pow
+    # (contracts/modifiers.py).  Meaning of the fold, by induction on the number of arguments, from the pointwise meaning of one
+    # application of plus / product (the Engine B identities below, stated here as the premise `one`):
+    fs = z3.Const('fs', FnL); r = z3.Real('r'); n = z3.Int('n'); a, b = z3.Consts('a b', Fn)
+    def L(name, hyps, goal): out.append(Obligation('C09/lemma/' + name, hyps, goal, kind='lemma', function='props/C09.py', carries_property=True, unfold_depth=2))
+    for nm, C, at, op in (('sum', MD.PLUS, sum_at, lambda x, y: x + y), ('product', MD.PRODUCT, prod_at, lambda x, y: x * y)):
+        one = z3.ForAll([a, b, r], app(comb2(C, a, b), r) == op(app(a, r), app(b, r)), patterns=[app(comb2(C, a, b), r)])
+        L('%s-of-one-argument-is-that-argument' % nm, [], app(reduce_fn(C, fs, z3.IntVal(0)), r) == app(fs[0], r))
+        L('%s-fold/base' % nm, [one], app(reduce_fn(C, fs, z3.IntVal(0)), r) == at(fs, r, z3.IntVal(0)))
+        L('%s-fold/step' % nm, [one, n >= 0, app(reduce_fn(C, fs, n), r) == at(fs, r, n)], app(reduce_fn(C, fs, n + 1), r) == at(fs, r, n + 1))
+    onep = z3.ForAll([a, b, r], app(comb2(MD.POW, a, b), r) == z3.Function('real_pow', RealS, RealS, RealS)(app(a, r), app(b, r)), patterns=[app(comb2(MD.POW, a, b), r)])
+    L('pow-of-two-arguments-is-a(r)**b(r)', [onep], app(reduce_fn(MD.POW, fs, z3.IntVal(1)), r) == z3.Function('real_pow', RealS, RealS, RealS)(app(fs[0], r), app(fs[1], r)))
     m = Module.get(F_MOD)
     out.append(B.static_obligation('C09/_modifiers.py/plus-is-the-python-api-plus', m.imports.get('plus', (None, None))[1] == 'plus' and 'atsim.potentials' in str(m.imports.get('plus')[0]) or m.imports.get('plus') is not None, 'module', F_MOD, str(m.imports.get('plus'))))
     # pointwise meaning and derivatives of plus/product/pow/trans: Engine B identities (undetermined operands)
     out += [o for o in C07.combinator_obligations('C09') if '/translate' in o.name or 'potential/is-' in o.name or 'transformed/is-' in o.name or 'shift-is' in o.name]
-    # trans: argument validation
-    out.append(S('C09', F_MOD, 'trans', 'two-arguments-second-is-as.constant-X',
-                 ['if not len(potential_forms) == 2:\n raise ConfigurationException', "if second_form.potential_form != 'as.constant':\n raise ConfigurationException",
-                  'if len(second_form.parameters) != 1:\n raise ConfigurationException', 'potential_func = potential_form_builder.create_potential_function(potential_forms[0])', 'trans_value = second_form.parameters[0]']))
+    # trans: argument validation and f(r + X) are the Engine A contract of trans (contracts/modifiers.py)
     # nesting: create_potential_function builds one range per chain member, a modifier calls back into the builder for its arguments
     out.append(S('C09', F_PFB, 'Potential_Form_Builder._make_multi_range_tuple', 'modifier-or-form-instance',
                  ["if hasattr(pform_instance, 'modifier'):", 'pform_factory = self.modifier_registry[pform_instance.modifier]', 'pform = pform_factory(pform_instance.potential_forms, self)',
@@ -77,8 +89,14 @@ def lemmas():
     out.append(S('C09', F_CP, '_ConfigParserDict._key_transform', 'removes-blanks-and-tabs', ["k = k.strip().replace(' ', '')", "k = k.replace('\\t', '')"]))
     return out
 
+MUTANTS = [
+    (F_MOD, '_modifier_from_func_reduce', "pot_callables.append(pot_callable)", "pot_callables.insert(0, pot_callable)", 'preserve/0'),
+    (F_MOD, 'product', "_modifier_from_func_reduce('product', product,", "_modifier_from_func_reduce('product', plus,", 'post'),
+    (F_MOD, 'sum', "_modifier_from_func_reduce('sum', plus,", "_modifier_from_func_reduce('sum', pow,", 'post'),
+    (F_MOD, '_modifier_from_func_reduce', "create_potential_function(pfi)", "create_potential_function(potential_forms[0])", 'preserve/0'),
+]
 MODULE_MUTANTS = [
-    (F_MOD, "  mod = functools.reduce(func, pot_callables)\n", "  mod = functools.reduce(func, reversed(pot_callables))\n", 'left-fold'),
+    (F_MOD, "  mod = functools.reduce(func, pot_callables)\n", "  mod = functools.reduce(func, reversed(pot_callables))\n", '_modifier_from_func_reduce'),
     (F_MOD, "    return potential_func(r+trans_value)\n", "    return potential_func(r-trans_value)\n", 'transformed/is-f(r+X)'),
     (F_PM, "def fmod(a,b):\n  return math.fmod(a,b)", "def fmod(a,b):\n  return a % b", 'each-function-is-math'),
     (F_REG, "    pairs = list(itertools.permutations(self._potential_forms.values(), 2))\n", "    pairs = list(itertools.combinations(self._potential_forms.values(), 2))\n", 'each-form-in-every-other'),
